@@ -140,7 +140,7 @@ class C06:
         ts, size, sip, hl = model(vt, body)
         magic = struct.pack("<H", magic_int) + (b"\r\n" if magic_int not in (39170, 39171) else b"\x99\x00")
         header = magic + body[:hl - 4]
-        data = header + (payload if payload is not None else b"N" + b"\0" * 60)
+        data = header + (payload if payload is not None else b"N")
         # load_module wants >= 50 bytes (trailing bytes are not read): exactly 50 is the smallest valid file
         want_len = 50 if case["marker"] % 2 else 60
         if len(data) < want_len:
